@@ -170,7 +170,15 @@ func (b *ASTBuilder) buildNode(tsNode *sitter.Node) *Node {
 			return b.buildFormattedString(tsNode)
 		}
 		return b.buildConstant(tsNode)
-	case "integer", "float", "concatenated_string", "true", "false", "none":
+	case "concatenated_string":
+		// Implicit concatenation with at least one f-string part
+		for i := 0; i < int(tsNode.ChildCount()); i++ {
+			if part := tsNode.Child(i); part != nil && part.Type() == "string" && b.hasChildOfType(part, "interpolation") {
+				return b.buildConcatenatedFormattedString(tsNode)
+			}
+		}
+		return b.buildConstant(tsNode)
+	case "integer", "float", "true", "false", "none":
 		return b.buildConstant(tsNode)
 	case "formatted_string", "interpolation":
 		return b.buildFormattedString(tsNode)
@@ -1472,6 +1480,27 @@ func (b *ASTBuilder) buildFormattedString(tsNode *sitter.Node) *Node {
 				strNode.Value = b.getNodeText(child)
 				node.AddChild(strNode)
 			}
+		}
+	}
+
+	return node
+}
+
+// buildConcatenatedFormattedString builds an implicit string concatenation that
+// has an f-string among its parts ("a" f"{x}") as one f-string node holding the
+// pieces of all parts in order
+func (b *ASTBuilder) buildConcatenatedFormattedString(tsNode *sitter.Node) *Node {
+	node := NewNode(NodeJoinedStr)
+	node.Location = b.getLocation(tsNode)
+
+	childCount := int(tsNode.ChildCount())
+	for i := 0; i < childCount; i++ {
+		part := tsNode.Child(i)
+		if part == nil || part.Type() != "string" {
+			continue
+		}
+		for _, piece := range b.buildFormattedString(part).Children {
+			node.AddChild(piece)
 		}
 	}
 
